@@ -24,6 +24,7 @@ type node struct {
 	index   int // position among siblings (0-based)
 	nsib    int
 	flags   map[string]bool // hover, focus, ... and exotic pseudo-class names
+	ns      string          // namespace URI of the element ("" = no namespace)
 }
 
 type target struct {
@@ -77,8 +78,51 @@ type fitem struct {
 }
 
 type flattener struct {
-	items []fitem
-	anon  int
+	items     []fitem
+	anon      int
+	nsPrefix  map[string]string // @namespace prefix url(...)
+	nsDefault *string           // @namespace url(...)
+}
+
+// resolve the namespace prefixes of a selector against the sheet's @namespace rules
+func (f *flattener) resolveNamespaces(c *complexSel) {
+	for ci := range c.compounds {
+		for pi := range c.compounds[ci].parts {
+			s := &c.compounds[ci].parts[pi]
+			for _, a := range s.args {
+				f.resolveNamespaces(a)
+			}
+			if s.kind != "type" && s.kind != "universal" && s.kind != "attr" {
+				continue
+			}
+			switch s.nsMode {
+			case 0:
+				// an unprefixed type selector is in the default namespace, if one is declared
+				if s.kind != "attr" && f.nsDefault != nil {
+					s.nsMode, s.nsURI = 4, *f.nsDefault
+				}
+			case 1:
+				if uri, ok := f.nsPrefix[s.nsPrefix]; ok {
+					s.nsMode, s.nsURI = 4, uri
+				} else {
+					s.nsMode = 5
+					c.invalid = true
+				}
+			}
+		}
+	}
+}
+
+func nsMatches(s simpleSel, elemNS string) bool {
+	switch s.nsMode {
+	case 3:
+		return elemNS == ""
+	case 4:
+		return elemNS == s.nsURI
+	case 5:
+		return false
+	}
+	return true
 }
 
 func layerNames(prelude []tok) [][]string {
@@ -168,6 +212,9 @@ func (f *flattener) body(body []bodyItem, conds []*condExpr, layer []string, ctx
 func (f *flattener) rule(r *prule, conds []*condExpr, layer []string, ctx *selCtx) {
 	if !r.isAt {
 		sels := parseSelectorList(r.prelude)
+		for _, sl := range sels {
+			f.resolveNamespaces(sl)
+		}
 		if ctx != nil {
 			for i := range sels {
 				sels[i] = relativize(sels[i])
@@ -178,6 +225,38 @@ func (f *flattener) rule(r *prule, conds []*condExpr, layer []string, ctx *selCt
 		return
 	}
 	switch r.at {
+	case "namespace":
+		var prefix, uri string
+		hasPrefix := false
+		for _, t := range r.prelude {
+			switch t.kind {
+			case tIdent:
+				prefix, hasPrefix = t.text, true
+			case tURL, tString:
+				uri = t.text
+			case tFunction:
+			}
+		}
+		if uri == "" {
+			for _, c := range parseCVs(r.prelude) {
+				if c.t.kind == tFunction && strings.EqualFold(c.t.text, "url") {
+					for _, k := range c.kids {
+						if k.t.kind == tString {
+							uri = k.t.text
+						}
+					}
+				}
+			}
+		}
+		if hasPrefix {
+			if f.nsPrefix == nil {
+				f.nsPrefix = map[string]string{}
+			}
+			f.nsPrefix[prefix] = uri
+		} else {
+			u := uri
+			f.nsDefault = &u
+		}
 	case "media", "supports", "container":
 		prefix := map[string]string{"media": "m:", "supports": "s:", "container": "c:"}[r.at]
 		c := parseCond(parseCVs(r.prelude), prefix)
@@ -320,9 +399,9 @@ func (d *dom) matchSimple(s simpleSel, ni int, ctx *selCtx, e *env) bool {
 	n := &d.nodes[ni]
 	switch s.kind {
 	case "universal":
-		return true
+		return nsMatches(s, n.ns)
 	case "type":
-		return n.tag == s.name
+		return n.tag == s.name && nsMatches(s, n.ns)
 	case "id":
 		return n.id == s.name
 	case "class":
@@ -335,6 +414,10 @@ func (d *dom) matchSimple(s simpleSel, ni int, ctx *selCtx, e *env) bool {
 	case "attr":
 		v, ok := n.attrs[s.name]
 		if !ok {
+			return false
+		}
+		// the DOM's attributes are in no namespace
+		if s.nsMode == 4 || s.nsMode == 5 {
 			return false
 		}
 		a, b := v, s.val
